@@ -23,6 +23,8 @@ type Proxy struct {
 	App    [2]int64
 	Cuts   int64
 	Conns  int64
+	Logons [2]int64 // Logon frames per direction since the last ResetHB
+	base   int64    // Conns at the last ResetHB
 	closed int32
 }
 
@@ -78,6 +80,7 @@ func (p *Proxy) pipe(src, dst net.Conn, dir int) {
 			atomic.AddInt64(&p.HB[dir], int64(bytes.Count(chunk, []byte("\x0135=0\x01"))))
 			atomic.AddInt64(&p.RR[dir], int64(bytes.Count(chunk, []byte("\x0135=2\x01"))))
 			atomic.AddInt64(&p.App[dir], int64(bytes.Count(chunk, []byte("\x0135=D\x01"))))
+			atomic.AddInt64(&p.Logons[dir], int64(bytes.Count(chunk, []byte("\x0135=A\x01"))))
 			dst.Write(chunk)
 			if cut {
 				atomic.AddInt64(&p.Cuts, 1)
@@ -108,7 +111,16 @@ func (p *Proxy) CutNow() {
 	atomic.AddInt64(&p.Cuts, 1)
 }
 
-func (p *Proxy) ResetHB() { atomic.StoreInt64(&p.HB[0], 0); atomic.StoreInt64(&p.HB[1], 0) }
+func (p *Proxy) ResetHB() {
+	atomic.StoreInt64(&p.HB[0], 0)
+	atomic.StoreInt64(&p.HB[1], 0)
+	atomic.StoreInt64(&p.Logons[0], 0)
+	atomic.StoreInt64(&p.Logons[1], 0)
+	atomic.StoreInt64(&p.base, atomic.LoadInt64(&p.Conns))
+}
+
+// ConnsSinceReset is the number of connections that went through the link since the last ResetHB.
+func (p *Proxy) ConnsSinceReset() int64 { return atomic.LoadInt64(&p.Conns) - atomic.LoadInt64(&p.base) }
 
 func (p *Proxy) Close() {
 	p.ln.Close()
